@@ -120,6 +120,8 @@ def fmt(t, depth=0):
         return "kw(%s)" % ", ".join(items)
     if k == "elem":
         return "elem(%s)" % fmt(t[1], depth + 1)
+    if k == "ref":
+        return "<%s#%s>" % ("list", t[1])
     if k == "star":
         return "*" + fmt(t[1], depth + 1)
     if k == "listof":
@@ -643,6 +645,8 @@ class Interp(object):
                 out.append(p)
                 continue
             self.emit(p, "loop", st, ("enter", it))
+            it_ref = it
+            it = self.deref(it, p)
             items = self.known_items(it, p)
             if items is not None and len(items) <= 4:
                 # full unrolling over a literal
@@ -776,6 +780,7 @@ class Interp(object):
         return None
 
     def known_items(self, it, path):
+        it = self.deref(it, path)
         if isinstance(it, tuple):
             if it[0] in ("tuple", "list", "set"):
                 return list(it[1])
@@ -1031,6 +1036,7 @@ class Interp(object):
     def known_truth(self, v, path):
         if not isinstance(v, tuple):
             return None
+        v = self.deref(v, path)
         k = v[0]
         if k == "const":
             return bool(v[1])
@@ -1160,6 +1166,7 @@ class Interp(object):
         t = ("sub", b, i)
         if t in p.heap:
             return p.heap[t]
+        b = self.deref(b, p)
         if isinstance(b, tuple) and b[0] in ("tuple", "list") and i[0] == "const" and isinstance(i[1], int) and -len(b[1]) <= i[1] < len(b[1]):
             return b[1][i[1]]
         if isinstance(b, tuple) and b[0] == "seq":
@@ -1216,17 +1223,32 @@ class Interp(object):
         return [(self.mkseq("tuple", acc), p) for acc, p in self._eval_list(node.elts, path)]
 
     def ex_List(self, node, path):
-        return [(self.mkseq("list", acc), p) for acc, p in self._eval_list(node.elts, path)]
+        return [(self.new_cell(self.mkseq("list", acc), p, node), p) for acc, p in self._eval_list(node.elts, path)]
 
     def ex_Set(self, node, path):
-        return [(self.mkseq("set", acc), p) for acc, p in self._eval_list(node.elts, path)]
+        return [(self.new_cell(self.mkseq("set", acc), p, node), p) for acc, p in self._eval_list(node.elts, path)]
+
+    def new_cell(self, content, path, node):
+        """a mutable list/set object: the variable holds a reference, the contents live in the path's heap, so
+        that aliases (`bucket = a if c else b; bucket.append(x)`) and helpers that append see one object"""
+        if not (isinstance(content, tuple) and content and content[0] in ("list", "set", "listof")):
+            return content
+        self._site += 1
+        ref = ("ref", self._site, self.site(node))
+        path.heap[ref] = content
+        return ref
+
+    def deref(self, v, path):
+        if isinstance(v, tuple) and v and v[0] == "ref":
+            return path.heap.get(v, v)
+        return v
 
     def mkseq(self, kind, items):
         if any(isinstance(x, tuple) and x and x[0] == "star" for x in items):
             return self.flatten_seq(items)
         return (kind, tuple(items))
 
-    def flatten_seq(self, items):
+    def flatten_seq(self, items, path=None):
         """positional items with ('star', v) -> ('seq', items, rest, offset) when expressible."""
         out = []
         rest = None
@@ -1234,6 +1256,8 @@ class Interp(object):
         for x in items:
             if isinstance(x, tuple) and x and x[0] == "star":
                 v = x[1]
+                if path is not None:
+                    v = self.deref(v, path)
                 if rest is not None:
                     return ("seq?", tuple(items))
                 if isinstance(v, tuple) and v[0] in ("tuple", "list"):
@@ -1349,6 +1373,8 @@ class Interp(object):
                 pass
         if op == "+" and a[0] in ("list", "tuple") and b[0] == a[0]:
             return (a[0], a[1] + b[1])
+        if op == "+" and a[0] == "list" and b[0] == "listof" and not a[1]:
+            return b
         return ("bin", op, a, b)
 
     def ex_BinOp(self, node, path):
@@ -1361,7 +1387,11 @@ class Interp(object):
                 if q.status != "ok":
                     out.append((None, q))
                     continue
-                out.append((self.binop(_opname(node.op), a, b), q))
+                a2, b2 = self.deref(a, q), self.deref(b, q)
+                res = self.binop(_opname(node.op), a2 if a2 is not a and _opname(node.op) == "+" else a, b2 if b2 is not b and _opname(node.op) == "+" else b)
+                if _opname(node.op) == "+" and isinstance(res, tuple) and res[0] in ("list", "set", "listof"):
+                    res = self.new_cell(res, q, node)
+                out.append((res, q))
         return out
 
     def ex_Compare(self, node, path):
@@ -1497,21 +1527,37 @@ class Interp(object):
 
     def eval_call(self, node, path, fv_known=None):
         out = []
-        # functional tracking of local list/set literals:  xs = [] ... xs.append(v)
+        # list / set objects created on this path are mutable cells:  xs = [] ... xs.append(v)
         f = node.func
-        if fv_known is None and isinstance(f, ast.Attribute) and isinstance(f.value, ast.Name) and f.attr in ("append", "add") and len(node.args) == 1 and not node.keywords:
-            cur = path.env.get(f.value.id)
-            if isinstance(cur, tuple) and cur and cur[0] in ("list", "set", "listof"):
-                for v, p in self.eval(node.args[0], path):
-                    if p.status == "ok":
-                        cur2 = p.env.get(f.value.id)
-                        if cur2[0] == "listof":
-                            p.env[f.value.id] = ("listof", cur2[1], cur2[2] + (v,))
-                        else:
-                            p.env[f.value.id] = (cur2[0], cur2[1] + (v,))
-                        self.emit(p, "call", node, {"func": ("attr", ("local", f.value.id), f.attr), "args": (v,), "kwargs": (), "callee": None, "user": False, "inlined": False, "approx": False, "builtin": True})
+        if fv_known is None and isinstance(f, ast.Attribute) and f.attr in ("append", "add", "insert") and not node.keywords and len(node.args) in (1, 2):
+            handled = False
+            for base, p0 in self.eval(f.value, path):
+                if p0.status != "ok" or not (isinstance(base, tuple) and base and base[0] == "ref" and base in p0.heap):
+                    if handled:
+                        out.append((None, p0))
+                        continue
+                    # not a cell: fall through to the general case (only valid if nothing was handled yet)
+                    handled = None
+                    break
+                handled = True
+                for args, p in self._eval_list(node.args, p0):
+                    if p.status != "ok":
+                        out.append((None, p))
+                        continue
+                    cur2 = p.heap.get(base)
+                    v = args[-1]
+                    front = f.attr == "insert" and len(args) == 2 and args[0] == ("const", 0)
+                    if f.attr == "insert" and not front:
+                        p.heap[base] = ("listof", ("unknown-order", cur2), (v,))
+                    elif cur2[0] == "listof":
+                        p.heap[base] = ("listof", cur2[1], ((v,) + cur2[2]) if front and not cur2[1] else cur2[2] + (v,)) if not front else ("listof", ("unknown-order", cur2), (v,))
+                    else:
+                        p.heap[base] = (cur2[0], ((v,) + cur2[1]) if front else cur2[1] + (v,))
+                    self.emit(p, "call", node, {"func": ("attr", base, f.attr), "args": tuple(args), "kwargs": (), "callee": None, "user": False, "inlined": False, "approx": False, "builtin": True})
                     out.append((NONE, p))
+            if handled:
                 return out
+            out = []
         fvals = [(fv_known, path)] if fv_known is not None else self.eval(node.func, path)
         for fv, p in fvals:
             if p.status != "ok":
@@ -1701,23 +1747,23 @@ class Interp(object):
                 if not args and p.fi.cls is not None and p.fi.params:
                     return [(("super", p.fi.cls.key, p.env.get(p.fi.params[0])), p)]
             if n == "list" and len(args) == 1 and isinstance(args[0], tuple):
-                a = args[0]
+                a = self.deref(args[0], p)
                 if a[0] in ("tuple", "list"):
-                    return [(("list", a[1]), p)]
+                    return [(self.new_cell(("list", a[1]), p, node), p)]
                 if a[0] == "seq" and a[2] is None:
-                    return [(("list", a[1]), p)]
+                    return [(self.new_cell(("list", a[1]), p, node), p)]
                 if a[0] == "seq":
                     return [(a, p)]
             if n == "list" and len(args) == 1 and not kwargs:
-                return [(("listof", args[0], ()), p)]
+                return [(self.new_cell(("listof", args[0], ()), p, node), p)]
             if n == "list" and not args:
-                return [(("list", ()), p)]
+                return [(self.new_cell(("list", ()), p, node), p)]
             if n == "set" and not args:
-                return [(("set", ()), p)]
+                return [(self.new_cell(("set", ()), p, node), p)]
             if n == "dict" and not args and not kwargs:
                 return [(("dict", ()), p)]
-            if n == "len" and len(args) == 1 and isinstance(args[0], tuple) and args[0][0] in ("tuple", "list"):
-                return [(("const", len(args[0][1])), p)]
+            if n == "len" and len(args) == 1 and isinstance(self.deref(args[0], p), tuple) and self.deref(args[0], p)[0] in ("tuple", "list"):
+                return [(("const", len(self.deref(args[0], p)[1])), p)]
             if n in ("isinstance", "callable", "hasattr", "getattr", "len", "min", "max", "repr", "str", "dir", "enumerate", "zip", "iter", "pow", "abs", "round", "divmod", "int", "float", "complex", "bool", "tuple", "range", "id", "type", "sorted", "any", "all", "setattr"):
                 if n in ("callable",) and len(args) == 1:
                     k = args[0]
@@ -1952,7 +1998,7 @@ class Interp(object):
         rest = None
         for a in pos:
             if isinstance(a, tuple) and a and a[0] == "star":
-                v = a[1]
+                v = self.deref(a[1], p)
                 if isinstance(v, tuple) and v[0] in ("tuple", "list"):
                     flat.extend(v[1])
                 elif isinstance(v, tuple) and v[0] == "seq":
